@@ -192,7 +192,7 @@ func (u *Unit) callMods(c *ssa.CallCommon, m *modSet, seen map[*ssa.Function]boo
 		}
 		return
 	}
-	if spec, ok := u.eng.Contracts[name]; ok && !spec.Inline {
+	if spec, ok := u.eng.contractFor(name, u.pkgName()); ok && !spec.Inline {
 		u.specMods(spec, m)
 		return
 	}
@@ -210,11 +210,11 @@ func (u *Unit) callMods(c *ssa.CallCommon, m *modSet, seen map[*ssa.Function]boo
 	}
 	if target != nil {
 		tname := canonFn(target)
-		if spec, ok := u.eng.Contracts[tname]; ok && !spec.Inline {
+		if spec, ok := u.eng.contractFor(tname, u.pkgName()); ok && !spec.Inline {
 			u.specMods(spec, m)
 			return
 		}
-		spec := u.eng.Contracts[tname]
+		spec, _ := u.eng.contractFor(tname, u.pkgName())
 		if (target.Parent() != nil || (spec != nil && spec.Inline)) && len(target.Blocks) > 0 {
 			u.fnMods(target, m, seen)
 			return
